@@ -1,18 +1,18 @@
 SPECIFICATION Spec
 CONSTANTS
   KeySeq <- KeySeq2
-  Configs <- ConfigsTime
-  KeyModes = {"", "if_new_refresh", "if_exists"}
+  Configs <- ConfigsTimeQ
+  KeyModes = {"", "if_new_refresh"}
   CasOffs = {}
   CasEps = {}
   Versions = {0}
   VerEpochs = {""}
   IdemKeys = {"", "k1"}
   IdemTTLs = {1}
-  Scores = {0, 1}
-  Limits <- LimitsSmall
+  Scores = {0}
+  Limits <- LimitsTiny
   ReadEps <- ReadEpsSmall
-  SinceOffs <- SinceOffsSmall
+  SinceOffs <- SinceOffsTiny
   PageSizes = {1, 2}
   MaxNow = 3
   MaxPubs = 3
